@@ -42,3 +42,13 @@ Theorem C18_lookup_insensitive :
     scan_value (SOH :: layout fs ++ post) t = scan_value (SOH :: layout fs' ++ post') t.
 Proof. exact lookup_insensitive. Qed.
 Print Assumptions C18_lookup_insensitive.
+
+(* end-of-message detection: only a segment that starts with "10=" closes a message *)
+From SF Require Import Frame Frame_proofs.
+Theorem C18_message_boundaries :
+  forall (msgs : list (list bytes * bytes)) (chunks : list bytes),
+    Forall (fun m => wf_message (fst m) (snd m)) msgs ->
+    concat chunks = concat (map (fun m => concat (fst m) ++ snd m) msgs) ->
+    deliver chunks = map (fun m => concat (fst m) ++ snd m) msgs.
+Proof. exact deliver_exact. Qed.
+Print Assumptions C18_message_boundaries.
